@@ -39,6 +39,11 @@ def _traversal(ctx, se, dparam=1):
             elem_in = ("deref", lp["elem"])
             writes = [(k, v) for k, v in se.assigns.items() if v[0] == elem_in or (v[0][0] == "deref" and strip(v[0][1]) == strip(lp["elem"]))]
             return {"mode": "iter", "head": head, "loop": loop, "in_term": strip(elem_in), "out_terms": [w[1][1] for w in writes], "writes": writes, "what": lp["resolved"]}
+        if src is not None and util.is_call(src, "core::slice::<impl [T]>::iter_mut") and "slice::IterMut" in (lp["resolved"] or "") and se.call_old.get((src[3][:2], 0)) == data_root:
+            # `for b in data.iter_mut()`: the same walk, spelled with the explicit adaptor
+            elem_in = ("deref", lp["elem"])
+            writes = [(k, v) for k, v in se.assigns.items() if v[0] == elem_in or (v[0][0] == "deref" and strip(v[0][1]) == strip(lp["elem"]))]
+            return {"mode": "iter", "head": head, "loop": loop, "in_term": strip(elem_in), "out_terms": [w[1][1] for w in writes], "writes": writes, "what": lp["resolved"]}
         if src is not None and src[0] == "agg" and src[2] == "std::ops::Range" and util.numnorm(src[4][0])[:2] == ("int", 0):
             # index loop `for i in 0..data.len()`: element i is read and written exactly once
             from ranges import strip_len
